@@ -1,14 +1,814 @@
 /-
-C05 — a network message reaches its destination exactly once, intact, over any tree (statements in progress).
+C05 — "A network message reaches its destination exactly once, intact, over any tree."
+
+On any set of running nodes whose addresses are closed under 'parent', a message of
+0..max_message_length bytes with a user message type, written at one node for another existing node
+while no other message is in flight, is delivered to the destination's queue exactly once with
+identical bytes, type and origin address, and to no other node's queue, and write()/send() returns
+True - provided no packet is lost.  Messages longer than 24 bytes travel as frames of at most 32
+on-air bytes and are reassembled transparently; with fragmentation off, messages up to 24 bytes
+behave the same.  Routing nodes forward such frames without handing them to their own application.
+
+Model: `NrfModel/Net/Node.lean`, `Net/Api.lean`.  Spec: `NrfModel/Spec/Delivery.lean` (`txPath`,
+`sendFrags`, `fragPlan`, `DeliveredOnce`), `Net/Frag.lean` (the pure fragment loop, tied to the
+reference encoder by C11), `Spec/Tree.lean` (C04).
+
+* `C05_local_*`  one node against **any** environment (every fuel, world, arrival script, fault
+                 list, behaviour of the other nodes): what one iteration of `_net_update()` does
+                 with a frame for another node / for this node / a PING; what `write()` hands to
+                 the radio for the first hop.
+* `C05_two_nodes*` closed system (`runOthers`), loss-free, under the driver contracts `L3Contracts`
+                 (`NrfProofs/C05Link.lean`): a single-frame message between two neighbours.
+* `C05_route_partial` see the end of the file.
 -/
-import NrfModel.Net.Api
+import NrfProofs.C05Forward
+import NrfProofs.C05Closed
+import NrfProofs.C05Example
+import NrfProofs.C05RouteTop
+import NrfProofs.C05Example3
+import NrfProofs.C05Reasm
 
 namespace Nrf.Props.C05
-open Nrf Nrf.Net
+open Nrf Nrf.Net Nrf.Spec Nrf.Proofs Nrf.Props.C04
 
 /-- the copy the queue stores is idempotent: what is dequeued is already in wire form -/
 theorem C05_wireCopy_idem (f : Frame) : wireCopy (wireCopy f) = wireCopy f := by
   unfold wireCopy
   simp only [Header.ty, Nat.and_assoc, Nat.and_self]
+
+example : wireCopy ⟨⟨0o7777, 0o5, 70000, .int 300, 256⟩, [1]⟩ = ⟨⟨0o7777, 0o5, 4464, .int 44, 0⟩, [1]⟩ := by decide
+
+/-! ## local: one node, any environment -/
+
+/-- **A frame for another node is forwarded, once, and not queued.**  One iteration of
+    `_net_update()` (any fuel `f + 2`, any state) in which `read()` returned the payload `b` of a
+    well-formed frame `fb` with valid addresses, addressed to another node — and this node routes
+    (it has a real address; the frame is not a multicast it listens to: `allow_multicast` off, or
+    `to_node` ≠ `0o100`): the frame is put into `frame_buf` and handed to `_write(to_node, TX_ROUTED)`
+    exactly once, whose verdict is ignored; then the loop continues with nothing to report.  Nothing
+    else happens in this iteration — in particular no `enqueue`. -/
+theorem C05_local_forward (f rv : Nat) (s s1 : NetState) (b : Bytes) (fb : Frame)
+    (hread : nexec (rfRead (f + 1)) s = (.ok (some b), s1))
+    (hdec : s1.node.frameBuf.unpack b = (fb, true))
+    (hvt : isValid fb.header.toNode = true) (hvf : isValid fb.header.fromNode = true)
+    (hother : fb.header.toNode ≠ s1.node.a.addr)
+    (hmc : s1.node.cfg.allowMulticast = false ∨ fb.header.toNode ≠ NETWORK_MULTICAST_ADDR)
+    (hnd : s1.node.a.addr ≠ NETWORK_DEFAULT_ADDR) (hc : s1.cur < s1.nodes.length) :
+    nexec (netUpdate (f + 2) rv) s =
+      match nexec (nodeWrite f fb.header.toNode TX_ROUTED) (s1.withFrame fb) with
+      | (.ok _, s2) => nexec (netUpdate (f + 1) 0) s2
+      | (.error e, s2) => (.error e, s2) := by
+  rw [show f + 2 = (f + 1) + 1 from rfl, netUpdate_step, hread]
+  simp only [hdec, hvt, hvf, Bool.not_true, Bool.or_self, Bool.false_eq_true, if_false, if_neg hother]
+  have hn : (s1.withFrame fb).node = { s1.node with frameBuf := fb } := node_setNode _ _ hc
+  rw [handleOther_forward f _ _ (by rw [hn]; exact hmc) (by rw [hn]; exact hnd), hn]
+  simp only []
+  rcases nexec (nodeWrite f fb.header.toNode TX_ROUTED) (s1.withFrame fb) with ⟨r, s2⟩
+  cases r <;> rfl
+
+example : ∃ (fb : Frame), (default : Frame).unpack [1, 0, 2, 0, 0, 0, 5, 0, 9] = (fb, true) ∧
+    fb.header.toNode = 2 ∧ fb.header.ty = 5 ∧ fb.message = [9] := ⟨_, rfl, rfl, rfl, rfl⟩
+
+/-- … and that `_write(to_node, TX_ROUTED)` leaves the router's own queue alone: at a tree node `x`
+    (C04), for a frame of another origin `o` towards another node `d`, whatever the link and the
+    other nodes do and whatever the outcome (also an exception), the queue, the message bytes in
+    `frame_buf` and the node's static attributes are as before — "routing nodes forward such frames
+    without handing them to their own application". -/
+theorem C05_local_forward_queue (f : Nat) (x d o : List Nat) (hx : IsNode x) (hd : IsNode d) (ho : IsNode o)
+    (hxd : x ≠ d) (hox : o ≠ x) (s s' : NetState) (r : Except PyErr Bool) (hs : s.cur ∈ s.active)
+    (ha : s.node.a = nodeSpec x) (hfrom : s.node.frameBuf.header.fromNode = val o)
+    (h : nexec (nodeWrite (f + 1) (val d) TX_ROUTED) s = (r, s')) :
+    s'.node.queue = s.node.queue ∧ s'.node.frameBuf.message = s.node.frameBuf.message ∧
+    s'.node.stat = s.node.stat ∧ s'.cur = s.cur := by
+  have hr := nodeWrite_routed_Q f x d o hx hd ho hxd hox s s' r hs ha hfrom h
+  have hp := hr.proj
+  unfold piQ at hp
+  simp only [Prod.mk.injEq] at hp
+  exact ⟨hp.2.1, hp.2.2, hp.1, hr.cur⟩
+
+example : IsNode [3] ∧ IsNode [3, 2] ∧ IsNode [4] ∧ ([3] : List Nat) ≠ [3, 2] ∧ ([4] : List Nat) ≠ [3] := by decide
+
+/-- **A frame for this node is queued, once.**  Same situation, `to_node` = this node's address, and
+    the type is a user type (0..127) or one of the three fragment types: the frame is put into
+    `frame_buf` and handed to `queue.enqueue` (`NetQueue.enqueue`: the plain bounded duplicate-free
+    queue for user types, the reassembly cache for fragments) exactly once; the loop continues and
+    will report the type — unless the enqueue completed a message of type EXTERNAL_DATA, which is
+    reported at once. -/
+theorem C05_local_deliver (f rv : Nat) (s s1 : NetState) (b : Bytes) (fb : Frame)
+    (hread : nexec (rfRead (f + 1)) s = (.ok (some b), s1))
+    (hdec : s1.node.frameBuf.unpack b = (fb, true))
+    (hvt : isValid fb.header.toNode = true) (hvf : isValid fb.header.fromNode = true)
+    (hthis : fb.header.toNode = s1.node.a.addr)
+    (hty : fb.header.ty ≤ MAX_USR_DEF_MSG_TYPE ∨ fb.header.ty = MSG_FRAG_FIRST ∨
+      fb.header.ty = MSG_FRAG_MORE ∨ fb.header.ty = MSG_FRAG_LAST) :
+    nexec (netUpdate (f + 2) rv) s =
+      match nexec enqueueFrameBuf (s1.withFrame fb) with
+      | (.ok _, s2) =>
+        if s2.node.frameBuf.header.ty = NETWORK_EXT_DATA then (.ok NETWORK_EXT_DATA, s2)
+        else nexec (netUpdate (f + 1) fb.header.ty) s2
+      | (.error e, s2) => (.error e, s2) := by
+  rw [show f + 2 = (f + 1) + 1 from rfl, netUpdate_step, hread]
+  simp only [hdec, hvt, hvf, Bool.not_true, Bool.or_self, Bool.false_eq_true, if_false, if_pos hthis]
+  have hne : fb.header.ty ≠ NETWORK_PING ∧ fb.header.ty ≠ MESH_ADDR_RESPONSE ∧ fb.header.ty ≠ MESH_ADDR_REQUEST := by
+    unfold MAX_USR_DEF_MSG_TYPE MSG_FRAG_FIRST MSG_FRAG_MORE MSG_FRAG_LAST at hty
+    unfold NETWORK_PING MESH_ADDR_RESPONSE MESH_ADDR_REQUEST
+    omega
+  rw [handleThis_enqueue f _ _ hne.1 hne.2.1 hne.2.2 hty]
+  rcases nexec enqueueFrameBuf (s1.withFrame fb) with ⟨r, s2⟩
+  cases r with
+  | error e => rfl
+  | ok a =>
+    simp only []
+    split <;> rfl
+
+example : MSG_FRAG_FIRST = 148 ∧ MSG_FRAG_MORE = 149 ∧ MSG_FRAG_LAST = 150 ∧ MAX_USR_DEF_MSG_TYPE = 127 := by decide
+
+/-- what `queue.enqueue(frame_buf)` is for a frame that is not a fragment: the plain queue, which
+    takes the wire copy at the end iff it has room and no frame with the same origin, id and type -/
+theorem C05_local_enqueue (q : NetQueue) (fb : Frame)
+    (ht : fb.header.ty ≠ MSG_FRAG_FIRST ∧ fb.header.ty ≠ MSG_FRAG_MORE ∧ fb.header.ty ≠ MSG_FRAG_LAST) :
+    q.enqueue fb = ((q.enqueueBase fb).1, (q.enqueueBase fb).2, fb) ∧
+    ((q.frames.length : Int) < q.maxSize →
+      (∀ g ∈ q.frames, ¬ (g.header.fromNode = fb.header.fromNode ∧ g.header.frameId = fb.header.frameId
+        ∧ g.header.ty = fb.header.ty)) →
+      q.enqueueBase fb = ({ q with frames := q.frames ++ [wireCopy fb] }, true)) :=
+  ⟨enqueue_plain q fb ht, enqueueBase_ok q fb⟩
+
+example : (({} : NetQueue).enqueue ⟨⟨1, 0, 7, .int 5, 0⟩, [9]⟩).1.frames = [⟨⟨1, 0, 7, .int 5, 0⟩, [9]⟩] := by decide
+
+/-- **A PING for this node is consumed**: nothing is queued, nothing is sent, the loop continues. -/
+theorem C05_local_ping (f rv : Nat) (s s1 : NetState) (b : Bytes) (fb : Frame)
+    (hread : nexec (rfRead (f + 1)) s = (.ok (some b), s1))
+    (hdec : s1.node.frameBuf.unpack b = (fb, true))
+    (hvt : isValid fb.header.toNode = true) (hvf : isValid fb.header.fromNode = true)
+    (hthis : fb.header.toNode = s1.node.a.addr) (hty : fb.header.ty = NETWORK_PING) :
+    nexec (netUpdate (f + 2) rv) s = nexec (netUpdate (f + 1) NETWORK_PING) (s1.withFrame fb) := by
+  rw [show f + 2 = (f + 1) + 1 from rfl, netUpdate_step, hread]
+  simp only [hdec, hvt, hvf, Bool.not_true, Bool.or_self, Bool.false_eq_true, if_false, if_pos hthis, hty,
+    handleThis_ping, if_true]
+
+example : NETWORK_PING = 130 := rfl
+
+/-- **What `write()` is.**  `RF24Network.write(frame)` with automatic routing, for a valid destination
+    and an admissible length: two header ids are consumed, `frame_buf` becomes a private wire copy of
+    the caller's frame with `from_node` := this node's address, then `_write(to_node, TX_NORMAL)`;
+    the caller's frame is returned untouched (fix D12). -/
+theorem C05_local_write (dst ty : Int) (msg : Bytes) (s : NetState)
+    (hv : isValid (maskInt dst 0xFFF) = true) (hlen : msg.length ≤ s.node.maxMessageLength)
+    (hfrag : msg.length ≤ MAX_FRAG_SIZE ∨ s.node.fragEnabled = true) :
+    nexec (apiNetWrite dst ty msg AUTO_ROUTING) s =
+      let caller : Frame :=
+        { header := { fromNode := s.node.a.addr, toNode := maskInt dst 0xFFF, frameId := s.nextId,
+                      msgType := .int (maskInt ty 0xFF), reserved := 0 },
+          message := msg }
+      let s0 : NetState := { s with nextId := (((s.nextId + 1) &&& 0xFFFF) + 1) &&& 0xFFFF }
+      match nexec (nodeWrite F (maskInt dst 0xFFF) TX_NORMAL)
+          (s0.setNode fun n => { n with frameBuf := wireCopy caller }) with
+      | (.ok r, s') => (.ok (r, caller), s')
+      | (.error e, s') => (.error e, s') :=
+  apiNetWrite_eq dst ty msg s hv hlen hfrag
+
+example : maskInt 5 0xFFF = 5 ∧ maskInt (-1) 0xFF = 255 := by decide
+
+/-- **What goes on the air for a hop.**  `_write_to_pipe(node, pipe, multicast)` for a hop other than
+    this node itself is `txPath` (`Spec/Delivery.lean`): auto-ack on pipe 0 iff unicast, stop
+    listening, transmit to `_pipe_address(node, pipe)`; a message of at most 24 bytes as the single
+    payload `frame_buf.pack()`, re-sent (not re-written) for at most `tx_timeout` ms; a longer one by
+    carrying out its fragment plan, whose payloads are exactly the frames of the pure fragment loop
+    of `Net/Frag.lean` (which C11 ties to the reference encoder), in order, stopping at the first
+    fragment that stays unsent.  For every fuel, state, link behaviour, behaviour of other nodes.
+    `(wireCopy c).pack = c.pack`: the bytes are those of the caller's frame. -/
+theorem C05_local_tx (f tn tp : Nat) (mc : Bool) (s : NetState) (hs : s.cur ∈ s.active)
+    (hc : s.cur < s.nodes.length) (hnl : tn ≠ s.node.a.addr ∨ mc = true) :
+    nexec (nodeWriteToPipe (f + 1) tn tp mc) s = nexec (txPath f tn tp mc) s ∧
+    (∀ (msg : Bytes) (total msgT n : Nat) (h : Header),
+      fragLoop msg total msgT n h = .ok ((fragPlan msg total msgT n h).map (·.2),
+        ((fragPlan msg total msgT n h).getLast?.map (·.1)).getD h)) ∧
+    (∀ (c : Frame) (t : Nat), c.header.msgType = .int t → (wireCopy c).pack = c.pack) :=
+  ⟨nodeWriteToPipe_txPath f tn tp mc s hs hc hnl, fragLoop_eq_plan, pack_wireCopy⟩
+
+example : (fragPlan (List.replicate 30 7) 2 5 2 ⟨1, 2, 3, .int 5, 0⟩).map (fun x => (x.1.ty, x.1.reserved, x.2.length))
+    = [(148, 2, 32), (150, 5, 14)] := by decide
+
+/-- … and for this node itself (a unicast): enqueued locally, nothing is sent -/
+theorem C05_local_loopback (f tp : Nat) (s : NetState) :
+    nexec (nodeWriteToPipe (f + 1) s.node.a.addr tp false) s = nexec enqueueFrameBuf s :=
+  nodeWriteToPipe_loopback f tp s
+
+/-- **Fragments are reassembled transparently** (pure; the sender side is `C05_local_tx`, the
+    receiver's dispatch `C05_local_deliver`): for a message of 25..144 bytes of a user type, with a
+    header in wire range, the payloads of the sender's fragment plan (`fragPlan`, i.e. the frames of
+    `Net/Frag.lean`'s pure loop) — unpacked by the receiver and handed in order to its
+    `FrameQueueFrag` (`NetQueue.enqueue`, fragmentation on, room, no frame with the same origin, id and
+    type) — leave the queue with **exactly one more frame: origin, destination, id, the message's own
+    type and the complete message** (FIRST starts the cache, every MORE is appended in sequence, LAST
+    completes it), and an invalidated cache.
+
+    Not proved (the remaining gap for fragmented messages end to end): the closed-system interleaving —
+    that between two `send()`s of the fragment loop the receiver's `update()` (run at the sender's
+    scheduling points) drains its RX FIFO of depth 3, and that the radio's duplicate filter never hits
+    on consecutive fragments (needs the sender's PID sequence in the link contract). -/
+theorem C05_frag_reassembly (a b i msgT : Nat) (msg : Bytes) (h : Header) (q : NetQueue) (f0 : Frame)
+    (ha : a < 4096) (hb : b < 4096) (hi : i < 65536) (hm : msgT ≤ MAX_USR_DEF_MSG_TYPE)
+    (hfa : h.fromNode = a) (hfb : h.toNode = b) (hfi : h.frameId = i)
+    (hlen : MAX_FRAG_SIZE < msg.length) (hmax : msg.length ≤ 144) (hq : q.frag = true)
+    (hroom : (q.frames.length : Int) < q.maxSize)
+    (hnew : ∀ g ∈ q.frames, ¬ (g.header.fromNode = a ∧ g.header.frameId = i ∧ g.header.ty = msgT)) :
+    feed q ((fragPlan msg (fragTotal msg.length) msgT (fragTotal msg.length) h).map (fun p => (f0.unpack p.2).1)) =
+      { q with cache := ⟨⟨a, b, i, .int msgT, msgT⟩, msg⟩, cacheValid := false,
+               frames := q.frames ++ [⟨⟨a, b, i, .int msgT, msgT⟩, msg⟩] } := by
+  generalize hn : fragTotal msg.length = n
+  have hb2 : 2 ≤ n ∧ n < 256 ∧ msg.length ≤ 24 * n := by
+    rw [← hn]; unfold fragTotal; unfold MAX_FRAG_SIZE at *
+    split <;> omega
+  unfold MAX_USR_DEF_MSG_TYPE at hm
+  have hun := fragPlan_unpack a b i msgT n msg ha hb hi hb2.1 hb2.2.1 (by omega) hb2.2.2 f0 n h (Nat.le_refl n)
+    hfa hfb hfi
+  have e : (fragPlan msg n msgT n h).map (fun p => (f0.unpack p.2).1) =
+      ((fragPlan msg n msgT n h).map (fun p => f0.unpack p.2)).map (·.1) := by
+    rw [List.map_map]; rfl
+  rw [e, hun, List.map_map, Nat.sub_self, ← List.range_eq_range']
+  exact feed_message a b i msgT n msg ha hb hi hb2.1 hb2.2.1 q hq (by omega)
+    (by unfold NETWORK_EXT_DATA; omega) hroom hnew
+
+example : (fragPlan (List.replicate 30 7) 2 5 2 ⟨1, 2, 3, .int 5, 0⟩).map (fun p => ((default : Frame).unpack p.2).1.header.ty)
+    = [148, 150] ∧ fragTotal 30 = 2 := by decide
+
+/-! ## two neighbours, closed system -/
+
+/-- **`write()` between two neighbours** (parent and child, either direction), closed system
+    (`runOthers`), loss-free, under the driver contracts.  Node `a` (tree node `x`, the caller,
+    listening) writes a message of at most 24 bytes of any type for its neighbour `y`, which is node
+    `b`, listening on its tree addresses with an empty RX FIFO; nobody else has data waiting, no third
+    radio is listening, the fault script is empty.  Then `write()` returns `True` and the caller's
+    frame; in the resulting state (`prepared … .afterRf D`) the only changes are: two header ids
+    consumed, `frame_buf` of `a`, the radio object and radio of `a` — listening again as before —
+    and the radio of `b`, whose RX FIFO holds exactly the packed frame, once, on the pipe C04 names
+    (`hopPipe`); the fault script is still empty. -/
+theorem C05_two_nodes_write (hc : L3Contracts) (cfg : AddrCfg) (hcfg : CfgOk cfg) (L : LinkCfg)
+    (s : NetState) (a b : Nat) (x y : List Nat) (Pa Pb : List Bytes) (ty : Int) (msg : Bytes)
+    (hx : IsNode x) (hy : IsNode y) (hadj : nextHopSpec x y = y) (hxy : x ≠ y)
+    (hcur : s.cur = a) (hact : s.active = [a]) (hclosed : s.closed = true)
+    (ha : a < s.nodes.length) (hb : b < s.nodes.length) (hab : a ≠ b) (hsize : s.nodes.length ≤ 100000)
+    (hrid : ∀ i, i < s.nodes.length → i ≠ a → s.ridAt i ≠ s.ridAt a)
+    (hWa : s.ridAt a < s.w.radios.length)
+    (hNa : NodeRadio L Pa true true 0x3E (s.nodeAt a).rf (s.radioAt a))
+    (haddr_a : (s.nodeAt a).a = nodeSpec x) (hcfg_a : (s.nodeAt a).cfg = cfg)
+    (hmax : msg.length ≤ (s.nodeAt a).maxMessageLength) (hlen : msg.length ≤ MAX_FRAG_SIZE)
+    (hNb : NodeRadio L Pb true true 0x3E (s.nodeAt b).rf (s.radioAt b))
+    (hPb : beginPipes cfg (val y) = .ok Pb) (hlast : (s.radioAt b).lastRx = none)
+    (hquiet : ∀ i, i < s.nodes.length → i ≠ a → (s.radioAt i).rxFifo = [])
+    (hothers : ∀ r k, r ≠ s.ridAt a → r ≠ s.ridAt b → (s.w.radio r).listensTo k = none)
+    (hfaults : s.w.faults = []) :
+    ∃ (D : DrvState) (pk A : Bytes) (pid : Nat),
+      (wireCopy (callerFrame x y s.nextId ty msg)).pack = .ok pk ∧
+      nexec (apiNetWrite (val y) ty msg AUTO_ROUTING) s =
+        (.ok (true, callerFrame x y s.nextId ty msg),
+         (prepared s (callerFrame x y s.nextId ty msg)).afterRf D) ∧
+      D.d.rid = (s.nodeAt a).rf.rid ∧ D.w.radios.length = s.w.radios.length ∧ D.w.faults = [] ∧
+      NodeRadio L Pa true true 0x3E D.d D.radio ∧ D.radio.rxFifo = (s.radioAt a).rxFifo ∧
+      D.radio.lastRx = (s.radioAt a).lastRx ∧
+      D.w.radio (s.ridAt b) =
+        (s.radioAt b).withRx [{ pipe := hopPipe x y, data := pk }] { pid := pid, addr := A, data := pk } ∧
+      (∀ r, r ≠ s.ridAt a → r ≠ s.ridAt b → D.w.radio r = s.w.radio r) := by
+  subst hcur
+  have hvy : val y < 4096 := val_lt_4096 hy
+  have hmy : maskInt (val y : Int) 0xFFF = val y := maskInt_natCast _ _ (by omega)
+  have hnode : s.node = s.nodeAt s.cur := rfl
+  -- `write()` down to `_write`
+  have hw := apiNetWrite_eq (val y) ty msg s (by rw [hmy]; exact isValid_val hy) (by rw [hnode]; exact hmax)
+    (Or.inl hlen)
+  simp only [hmy] at hw
+  have hcf : ({ header := { fromNode := s.node.a.addr, toNode := val y, frameId := s.nextId,
+                            msgType := .int (maskInt ty 0xFF), reserved := 0 },
+                message := msg } : Frame) = callerFrame x y s.nextId ty msg := by
+    unfold callerFrame
+    rw [hnode, haddr_a]; rfl
+  rw [hcf] at hw
+  generalize hcdef : callerFrame x y s.nextId ty msg = c at hw ⊢
+  have hct : c.header.msgType = .int (maskInt ty 0xFF) := by rw [← hcdef]; rfl
+  have hcm : c.message = msg := by rw [← hcdef]; rfl
+  -- the prepared state
+  have hprep : (({ s with nextId := (((s.nextId + 1) &&& 0xFFFF) + 1) &&& 0xFFFF } : NetState).setNode
+      fun n => { n with frameBuf := wireCopy c }) = prepared s c := rfl
+  rw [hprep] at hw
+  generalize hs' : prepared s c = s' at hw ⊢
+  have hs'c : s'.cur = s.cur := by rw [← hs']; rfl
+  have hs'a : s'.active = s.active := by rw [← hs']; rfl
+  have hs'l : s'.nodes.length = s.nodes.length := by rw [← hs']; simp [prepared]
+  have hs'w : s'.w = s.w := by rw [← hs']; rfl
+  have hs'cl : s'.closed = true := by rw [← hs']; exact hclosed
+  have hs'n : s'.node = { s.node with frameBuf := wireCopy c } := by
+    rw [← hs']; exact node_setNode _ _ ha
+  have hs'at : ∀ i, i ≠ s.cur → s'.nodeAt i = s.nodeAt i := by
+    intro i hi
+    rw [← hs']
+    show (NetState.setNode _ _).nodeAt i = _
+    rw [nodeAt_setNode, if_neg (fun h => hi h.1)]
+    rfl
+  have hs'rid : ∀ i, s'.ridAt i = s.ridAt i := by
+    intro i
+    by_cases hi : i = s.cur
+    · subst hi
+      have : s'.nodeAt s.cur = s'.node := by rw [← hs'c]; rfl
+      unfold NetState.ridAt
+      rw [this, hs'n]; rfl
+    · unfold NetState.ridAt; rw [hs'at i hi]
+  have hs'rad : ∀ i, s'.radioAt i = s.radioAt i := by
+    intro i; unfold NetState.radioAt; rw [hs'rid, hs'w]
+  have hs'd : s'.drv = s.drv := by
+    unfold NetState.drv; rw [hs'n, hs'w]
+  -- the hop according to C04
+  obtain ⟨hp1, hp5⟩ : 1 ≤ hopPipe x y ∧ hopPipe x y ≤ 5 := by
+    have := C04_listens cfg hcfg x y hx hy hxy TX_NORMAL (Or.inl rfl)
+    exact ⟨this.1, this.2.1⟩
+  obtain ⟨A, hA1, hA2, hA3⟩ := listen_addrs cfg hcfg y hy Pb hPb (hopPipe x y) hp1 hp5
+  have hl2p : logi2phys s'.node.a (val y) TX_NORMAL = (val y, hopPipe x y, false) := by
+    rw [hs'n]
+    show logi2phys s.node.a _ _ = _
+    rw [hnode, haddr_a, l2p_tree hx hy (Or.inl rfl), hadj]
+  -- the packed frame
+  have hwt : (wireCopy c).header.msgType = .int (maskInt ty 0xFF &&& 0xFF) := by
+    simp [wireCopy, Header.ty, hct]
+  obtain ⟨pk, hpk⟩ : ∃ pk, (wireCopy c).pack = .ok pk := by
+    unfold Frame.pack
+    rw [pack_int _ _ hwt]
+    exact ⟨_, rfl⟩
+  have hF : F = 199998 + 2 := rfl
+  rw [hF] at hw
+  obtain ⟨D, e, r1, l1, f1, N1, x1, lr1, ⟨pid, hrb⟩, hoth⟩ := nodeWrite_direct hc 199998 s' L Pa Pb b
+    (hopPipe x y) (val y) (hopPipe x y) (maskInt ty 0xFF &&& 0xFF) A pk
+    (by rw [hs'c, hs'l]; exact ha) hs'cl (by rw [hs'l]; omega)
+    (by
+      intro i hi hic hia
+      rw [hs'rad]
+      exact hquiet i (by rw [← hs'l]; exact hi) (by rw [← hs'c]; exact hic))
+    (by rw [hs'd]; exact hWa)
+    (by rw [hs'n, hs'd]; exact hNa)
+    (by rw [hs'l]; exact hb) (by rw [hs'c]; exact fun h => hab h.symm)
+    (by rw [hs'a, hact]; simp; exact fun h => hab h.symm)
+    (by
+      intro i hi hic
+      rw [hs'rid, hs'rid, hs'c]
+      exact hrid i (by rw [← hs'l]; exact hi) (by rw [← hs'c]; exact hic))
+    (by rw [hs'at b (fun h => hab h.symm), hs'rad]; exact hNb)
+    (by rw [hs'n]; show pipeAddress s.node.cfg _ _ = _; rw [hnode, hcfg_a]; exact hA1)
+    hA2 hp1 hp5 hA3 (by rw [hs'rad]; exact hlast)
+    (by
+      intro i pid hia hib
+      rw [hs'w]
+      exact hothers i _ (by rw [← hs'rid, ← hs'c]; exact hia) (by rw [← hs'rid]; exact hib))
+    (by rw [hs'w]; exact hfaults)
+    (by rw [hs'n]; show (wireCopy c).message.length ≤ _; simp only [wireCopy]; rw [hcm]; exact hlen)
+    (by rw [hs'n]; exact hpk)
+    (by
+      rw [hs'n]
+      show val y ≠ s.node.a.addr
+      rw [hnode, haddr_a]
+      exact fun h => hxy (val_inj hx.1 hy.1 h.symm))
+    (by rw [hs'n]; exact hwt) hl2p
+  rw [e] at hw
+  refine ⟨D, pk, A, pid, hpk, hw, ?_, ?_, f1, N1, ?_, ?_, ?_, ?_⟩
+  · rw [r1, hs'n]; rfl
+  · rw [l1, hs'w]
+  · rw [x1, hs'd]; rfl
+  · rw [lr1, hs'd]; rfl
+  · rw [hs'rid] at hrb
+    rw [hrb, hs'rad, hquiet b hb (fun h => hab h.symm)]
+    rfl
+  · intro r hra hrb'
+    rw [hoth r (by rw [hs'rid, hs'c]; exact hra) (by rw [hs'rid]; exact hrb'), hs'w]
+
+/-- **A single-frame user message between two neighbours is delivered exactly once, intact.**
+    Closed system, loss-free, under the driver contracts; the situation of `C05_two_nodes_write`
+    with a user type 0..127 and, at the receiver `b` (tree node `y`, not a mesh master, no scripted
+    arrivals), a queue with room and without a frame of the same origin, id and type.  `write()` at `a`
+    returns `True`; after it returned, the next `update()` of `b` (entered as the test session does,
+    `runAs`) returns the message type, and between the initial and the final state **the queue of `b`
+    has gained exactly one frame — origin `x`, the type, the bytes — and every other node's queue is
+    unchanged** (`DeliveredOnce`). -/
+theorem C05_two_nodes (hc : L3Contracts) (cfg : AddrCfg) (hcfg : CfgOk cfg) (L : LinkCfg)
+    (s : NetState) (a b : Nat) (x y : List Nat) (Pa Pb : List Bytes) (ty : Int) (msg : Bytes)
+    (hx : IsNode x) (hy : IsNode y) (hadj : nextHopSpec x y = y) (hxy : x ≠ y)
+    (hcur : s.cur = a) (hact : s.active = [a]) (hclosed : s.closed = true)
+    (ha : a < s.nodes.length) (hb : b < s.nodes.length) (hab : a ≠ b) (hsize : s.nodes.length ≤ 100000)
+    (hrid : ∀ i j, i < s.nodes.length → j < s.nodes.length → i ≠ j → s.ridAt i ≠ s.ridAt j)
+    (hWa : s.ridAt a < s.w.radios.length) (hWb : s.ridAt b < s.w.radios.length)
+    (hNa : NodeRadio L Pa true true 0x3E (s.nodeAt a).rf (s.radioAt a))
+    (haddr_a : (s.nodeAt a).a = nodeSpec x) (hcfg_a : (s.nodeAt a).cfg = cfg)
+    (hmax : msg.length ≤ (s.nodeAt a).maxMessageLength) (hlen : msg.length ≤ MAX_FRAG_SIZE)
+    (hNb : NodeRadio L Pb true true 0x3E (s.nodeAt b).rf (s.radioAt b))
+    (hPb : beginPipes cfg (val y) = .ok Pb) (hlast : (s.radioAt b).lastRx = none)
+    (haddr_b : (s.nodeAt b).a = nodeSpec y) (harr_b : (s.nodeAt b).arrivals = [])
+    (hkind_b : (s.nodeAt b).kind ≠ .meshMaster)
+    (hquiet : ∀ i, i < s.nodes.length → (s.radioAt i).rxFifo = [])
+    (hothers : ∀ r k, r ≠ s.ridAt a → r ≠ s.ridAt b → (s.w.radio r).listensTo k = none)
+    (hfaults : s.w.faults = []) (hty : 0 ≤ ty ∧ ty ≤ 127)
+    (hroom : ((s.nodeAt b).queue.frames.length : Int) < (s.nodeAt b).queue.maxSize)
+    (hnew : ∀ g ∈ (s.nodeAt b).queue.frames, ¬ (g.header.fromNode = val x ∧
+      g.header.frameId = s.nextId &&& 0xFFFF ∧ g.header.ty = ty.toNat)) :
+    ∃ s1 s2, nexec (apiNetWrite (val y) ty msg AUTO_ROUTING) s =
+        (.ok (true, callerFrame x y s.nextId ty msg), s1) ∧
+      nexec apiUpdate ((s1.ret).callAs b) = (.ok ty.toNat, s2) ∧
+      DeliveredOnce s.nodes s2.nodes b (val x) ty.toNat msg := by
+  obtain ⟨D, pk, A, pid, hpk, hw, r1, l1, f1, N1, x1, lr1, hrb, hoth⟩ :=
+    C05_two_nodes_write hc cfg hcfg L s a b x y Pa Pb ty msg hx hy hadj hxy hcur hact hclosed ha hb hab hsize
+      (fun i hi hia => hrid i a hi ha hia) hWa hNa haddr_a hcfg_a hmax hlen hNb hPb hlast
+      (fun i hi _ => hquiet i hi) hothers hfaults
+  obtain ⟨hm1, hm2, hm3⟩ := userType_mask ty hty
+  generalize hcdef : callerFrame x y s.nextId ty msg = c at *
+  have hct : c.header.msgType = .int ty.toNat := by rw [← hcdef, ← hm1]; rfl
+  have hcm : c.message = msg := by rw [← hcdef]; rfl
+  have hcf : c.header.fromNode = val x := by rw [← hcdef]; rfl
+  have hcto : c.header.toNode = val y := by rw [← hcdef]; rfl
+  have hcid : c.header.frameId = s.nextId := by rw [← hcdef]; rfl
+  have hcr : c.header.reserved = 0 := by rw [← hcdef]; rfl
+  have hvx : val x < 4096 := val_lt_4096 hx
+  have hvy : val y < 4096 := val_lt_4096 hy
+  -- the wire frame
+  have hwc : wireCopy c = ⟨⟨val x, val y, s.nextId &&& 0xFFFF, .int ty.toNat, 0⟩, msg⟩ := by
+    unfold wireCopy
+    simp only [Header.ty, hct, hcf, hcto, hcid, hcm, hm2, hcr]
+    rw [and_fff, and_fff, Nat.mod_eq_of_lt hvx, Nat.mod_eq_of_lt hvy]
+    rfl
+  have hidem : wireCopy (wireCopy c) = wireCopy c := C05_wireCopy_idem c
+  -- the state `b` starts its update in
+  generalize hs1 : (prepared s c).afterRf D = s1 at hw
+  have hpc : (prepared s c).cur = a := hcur
+  have hpl : (prepared s c).nodes.length = s.nodes.length := by simp [prepared]
+  have hs1c : s1.cur = a := by rw [← hs1]; exact hcur
+  have hs1l : s1.nodes.length = s.nodes.length := by rw [← hs1]; simp [prepared]
+  have hs1w : s1.w = D.w := by rw [← hs1]; rfl
+  have hs1cl : s1.closed = true := by rw [← hs1]; exact hclosed
+  have hs1at : ∀ i, i ≠ a → s1.nodeAt i = s.nodeAt i := by
+    intro i hi
+    rw [← hs1, nodeAt_afterRf_ne _ _ _ (by rw [hpc]; exact hi)]
+    show (NetState.setNode _ _).nodeAt i = _
+    rw [nodeAt_setNode, if_neg (fun h => hi (h.1.trans hcur))]
+    rfl
+  have hs1a : s1.nodeAt a = { s.nodeAt a with rf := D.d, frameBuf := wireCopy c } := by
+    rw [← hs1, nodeAt_afterRf, if_pos ⟨hpc.symm, by rw [hpc, hpl]; exact ha⟩]
+    show ({ (NetState.setNode _ _).nodeAt a with rf := D.d } : Node) = _
+    rw [nodeAt_setNode, if_pos ⟨hcur.symm, by show s.cur < s.nodes.length; rw [hcur]; exact ha⟩]
+    rfl
+  generalize ht : (s1.ret).callAs b = t
+  have htc : t.cur = b := by rw [← ht]; rfl
+  have hta : t.active = [b] := by rw [← ht]; rfl
+  have htl : t.nodes.length = s.nodes.length := by
+    rw [← ht]; show (s1.nodes.modify _ _).length = _; rw [List.length_modify, hs1l]
+  have htcl : t.closed = true := by rw [← ht]; exact hs1cl
+  have htrad : ∀ r, t.w.radio r = D.w.radio r := by
+    intro r; rw [← ht]; show s1.w.radio r = _; rw [hs1w]
+  have htfa : t.w.faults = [] := by rw [← ht]; show s1.w.faults = []; rw [hs1w]; exact f1
+  have htlen : t.w.radios.length = s.w.radios.length := by
+    rw [← ht]; show s1.w.radios.length = _; rw [hs1w]; exact l1
+  have htat : ∀ i, i ≠ a → t.nodeAt i = s.nodeAt i := by
+    intro i hi
+    rw [← ht, nodeAt_callAs, nodeAt_ret, if_neg (fun h => hi (h.1.trans hs1c)), hs1at i hi]
+  have htata : t.nodeAt a = { s.nodeAt a with rf := D.d, frameBuf := wireCopy c, clock := s1.w.clock } := by
+    rw [← ht, nodeAt_callAs, nodeAt_ret, if_pos ⟨hs1c.symm, by rw [hs1c, hs1l]; exact ha⟩, hs1a]
+  have hba : b ≠ a := fun h => hab h.symm
+  have htn : t.node = s.nodeAt b := by
+    show t.nodeAt t.cur = _
+    rw [htc, htat b hba]
+  have htrb : t.drv.radio =
+      (s.radioAt b).withRx [{ pipe := hopPipe x y, data := pk }] { pid := pid, addr := A, data := pk } := by
+    show t.w.radio t.node.rf.rid = _
+    rw [htrad, htn]
+    exact hrb
+  obtain ⟨hp1, hp5⟩ : 1 ≤ hopPipe x y ∧ hopPipe x y ≤ 5 := by
+    have := C04_listens cfg hcfg x y hx hy hxy TX_NORMAL (Or.inl rfl)
+    exact ⟨this.1, this.2.1⟩
+  have htq : Quiet t := by
+    intro i hi hic hia
+    rw [htl] at hi; rw [htc] at hic
+    unfold NetState.radioAt NetState.ridAt
+    rw [htrad]
+    by_cases hia' : i = a
+    · subst hia'
+      rw [htata]
+      show (D.w.radio D.d.rid).rxFifo = []
+      have : D.radio.rxFifo = [] := by rw [x1]; exact hquiet i ha
+      exact this
+    · rw [htat i hia']
+      show (D.w.radio (s.ridAt i)).rxFifo = []
+      rw [hoth _ (hrid i a hi ha hia') (hrid i b hi hb hic)]
+      exact hquiet i hi
+  -- the update of `b`
+  obtain ⟨D1, D2, e, F1, F2, N2, x2⟩ := netUpdate_deliver hc 199996 t L Pb (hopPipe x y) pk (wireCopy c) ty.toNat
+    (by rw [htc, htl]; exact hb) htcl (by rw [htl]; omega) htq
+    (by unfold DrvState.Wf; show t.node.rf.rid < t.w.radios.length; rw [htn, htlen]; exact hWb)
+    (by
+      rw [htn, htrb]
+      exact hNb.of_eq_cfg rfl)
+    (by rw [htn]; exact harr_b) (by rw [htrb]; rfl) hp5
+    (by rw [hwc]) hpk (by rw [hwc]; exact hlen)
+    (by rw [hidem, hwc, htn, haddr_b]; rfl)
+    (by rw [hidem, hwc]; exact isValid_val hy) (by rw [hidem, hwc]; exact isValid_val hx)
+    (by rw [hm2]; exact hm3)
+    (by rw [htn]; exact hroom)
+    (by
+      rw [htn, hidem, hwc]
+      exact hnew)
+  rw [hm2] at e
+  rw [hidem] at e
+  refine ⟨s1, (((t.afterRf D1).withFrame (wireCopy c)).enqueued (wireCopy c)).afterRf D2, hw, ?_, ?_⟩
+  · rw [ht]
+    show nexec (nodeUpdate (199999 + 1)) t = _
+    refine nodeUpdate_plain 199999 t _ _ e ?_
+    -- the node is still `b`'s object
+    have hc1 : (t.afterRf D1).cur < (t.afterRf D1).nodes.length := by simp; rw [htc, htl]; exact hb
+    have hc2 : ((t.afterRf D1).withFrame (wireCopy c)).cur < ((t.afterRf D1).withFrame (wireCopy c)).nodes.length := by
+      simpa using hc1
+    have hc3 : (((t.afterRf D1).withFrame (wireCopy c)).enqueued (wireCopy c)).cur <
+        (((t.afterRf D1).withFrame (wireCopy c)).enqueued (wireCopy c)).nodes.length := by simpa using hc1
+    rw [afterRf_node _ _ hc3, enqueued_node _ _ hc2, withFrame_node _ _ hc1,
+      afterRf_node _ _ (by rw [htc, htl]; exact hb), htn]
+    exact hkind_b
+  · -- exactly once, nowhere else
+    have hc0 : t.cur < t.nodes.length := by rw [htc, htl]; exact hb
+    have hc1 : (t.afterRf D1).cur < (t.afterRf D1).nodes.length := by simpa using hc0
+    have hc2 : ((t.afterRf D1).withFrame (wireCopy c)).cur < ((t.afterRf D1).withFrame (wireCopy c)).nodes.length := by
+      simpa using hc0
+    have hc3 : (((t.afterRf D1).withFrame (wireCopy c)).enqueued (wireCopy c)).cur <
+        (((t.afterRf D1).withFrame (wireCopy c)).enqueued (wireCopy c)).nodes.length := by simpa using hc0
+    refine ⟨by simp; exact htl, ⟨wireCopy c, ?_, ?_⟩, ?_⟩
+    · show ((NetState.afterRf _ D2).nodeAt b).queue.frames = (s.nodeAt b).queue.frames ++ [wireCopy c]
+      have : ((((t.afterRf D1).withFrame (wireCopy c)).enqueued (wireCopy c)).afterRf D2).nodeAt b =
+          ((((t.afterRf D1).withFrame (wireCopy c)).enqueued (wireCopy c)).afterRf D2).node := by
+        show _ = NetState.nodeAt _ (NetState.cur _)
+        simp [htc]
+      rw [this, afterRf_node _ _ hc3, enqueued_node _ _ hc2, withFrame_node _ _ hc1, afterRf_node _ _ hc0, htn]
+      rfl
+    · rw [hwc]; exact ⟨rfl, rfl, rfl⟩
+    · intro j hj
+      show ((NetState.afterRf _ D2).nodeAt j).queue.frames = (s.nodeAt j).queue.frames
+      have hjc : j ≠ t.cur := by rw [htc]; exact hj
+      rw [nodeAt_afterRf_ne _ _ _ (by simpa using hjc), nodeAt_enqueued_ne _ _ _ (by simpa using hjc),
+        nodeAt_withFrame_ne _ _ _ (by simpa using hjc), nodeAt_afterRf_ne _ _ _ hjc]
+      by_cases hja : j = a
+      · subst hja; rw [htata]
+      · rw [htat j hja]
+
+/-- non-vacuity: every hypothesis of `C05_two_nodes` other than the driver contracts is satisfied
+    by the concrete network of `NrfProofs/C05Example.lean` (master `0o0` and child `0o1` as their
+    constructors leave them), the master writing `[1, 2, 3]` with type 5 to the child -/
+example (hc : L3Contracts) : ∃ s1 s2,
+    nexec (apiNetWrite (val [1]) 5 [1, 2, 3] AUTO_ROUTING) Example.two =
+      (.ok (true, callerFrame [] [1] 4 5 [1, 2, 3]), s1) ∧
+    nexec apiUpdate ((s1.ret).callAs 1) = (.ok 5, s2) ∧
+    DeliveredOnce Example.two.nodes s2.nodes 1 0 5 [1, 2, 3] :=
+  C05_two_nodes hc {} (by decide) Example.L Example.two 0 1 [] [1] Example.P0 Example.P1 5 [1, 2, 3]
+    (by decide) (by decide) (by decide) (by decide) rfl rfl rfl (by decide) (by decide) (by decide) (by decide)
+    (by
+      intro i j hi hj hij
+      have hi' : i < 2 := hi
+      have hj' : j < 2 := hj
+      have : (i = 0 ∧ j = 1) ∨ (i = 1 ∧ j = 0) := by omega
+      rcases this with ⟨rfl, rfl⟩ | ⟨rfl, rfl⟩ <;> decide)
+    (by decide) (by decide) Example.two_radio0 (by decide) (by decide) (by decide) (by decide)
+    Example.two_radio1 Example.two_pipes1 (by decide) (by decide) (by decide) (by decide)
+    (by
+      intro i hi
+      have hi' : i < 2 := hi
+      have : i = 0 ∨ i = 1 := by omega
+      rcases this with rfl | rfl <;> decide)
+    Example.two_others (by decide) (by decide) (by decide) (by decide)
+
+/-! ## routes, closed system -/
+
+/-- **A single-frame message of a type without NETWORK_ACK (0..64) over any tree route** — closed
+    system with the schedule of `runOthers`, loss-free, under the driver contracts.  `NetOk`: every
+    node object is a distinct tree node on its own radio, configured alike, listening on its tree
+    addresses, no scripted arrivals, empty fault script; nobody has address `0o4444`; all RX FIFOs are
+    empty; every node of the tree route from the caller `a` to `d` is present and has not received
+    anything yet (`lastRx = none`: the radio's duplicate filter cannot hit); the destination's queue
+    accepts the frame.  Then `write()` returns `True`, and the next `update()` of the first hop
+    (entered as the test session does) makes the whole route forward — each router's `update()` runs
+    inside its predecessor's next `read()` — so that in the end **the destination's queue has gained
+    exactly that message (origin, type, bytes) and every other node's queue is unchanged**
+    (`DeliveredOnce`), for routes of any length (C04: at most 8 hops).
+
+    What this leaves open for the full statement (`C05_single` / `C05_frag` of DESIGN §7) — hence
+    `_partial`: (1) schedules other than `runOthers` (e.g. the `update()` being made by a node off the
+    route, or a router polled only later; here the first hop's own `update()` starts the cascade);
+    (2) types 65..127, whose NETWORK_ACK round trip is C13's liveness; (3) messages longer than 24
+    bytes (fragment streams against the RX FIFO depth 3 and the reassembly cache); (4) routers that
+    received frames before (`lastRx`), which needs the PID sequence of the sender in the invariant. -/
+theorem C05_route_partial (hc : L3Contracts) (cfg : AddrCfg) (hcfg : CfgOk cfg) (L : LinkCfg)
+    (tree : Nat → List Nat) (s : NetState) (a : Nat) (d : List Nat) (ty : Int) (msg : Bytes)
+    (hok : NetOk cfg L tree s) (hcur : s.cur = a) (hact : s.active = [a]) (ha : a < s.nodes.length)
+    (hsize : s.nodes.length ≤ 20000) (hndef : ∀ i, val (tree i) ≠ NETWORK_DEFAULT_ADDR)
+    (hd : IsNode d) (hxd : tree a ≠ d)
+    (hroute : ∀ k, 1 ≤ k → k ≤ dist (tree a) d →
+      ∃ j, j < s.nodes.length ∧ tree j = hops k (tree a) d ∧ (s.radioAt j).lastRx = none)
+    (hquiet : ∀ i, i < s.nodes.length → (s.radioAt i).rxFifo = [])
+    (hty : 0 ≤ ty ∧ ty ≤ 64) (hlen : msg.length ≤ MAX_FRAG_SIZE)
+    (hmax : msg.length ≤ (s.nodeAt a).maxMessageLength)
+    (hacc : ∀ j, j < s.nodes.length → tree j = d →
+      Accepts (s.nodeAt j).queue (wireCopy (callerFrame (tree a) d s.nextId ty msg))) :
+    ∃ s1 j1 jd, j1 < s.nodes.length ∧ tree j1 = nextHopSpec (tree a) d ∧ jd < s.nodes.length ∧ tree jd = d ∧
+      nexec (apiNetWrite (val d) ty msg AUTO_ROUTING) s =
+        (.ok (true, callerFrame (tree a) d s.nextId ty msg), s1) ∧
+      ∃ r s2, nexec apiUpdate ((s1.ret).callAs j1) = (.ok r, s2) ∧
+        DeliveredOnce s.nodes s2.nodes jd (val (tree a)) ty.toNat msg := by
+  subst hcur
+  generalize hx : tree s.cur = x at *
+  have hxn : IsNode x := by have := (hok.node s.cur ha).1; rw [hx] at this; exact this
+  have hpos : 1 ≤ dist x d := by
+    rcases Nat.eq_zero_or_pos (dist x d) with h | h
+    · exact absurd (dist_eq_zero h) hxd
+    · exact h
+  obtain ⟨j, hj, htj, hjl⟩ := hroute 1 (by omega) hpos
+  have htj' : tree j = nextHopSpec x d := htj
+  obtain ⟨jd, hjd, htjd, _⟩ := hroute (dist x d) hpos (Nat.le_refl _)
+  rw [hops_dist] at htjd
+  obtain ⟨D, pk, A, pid, P, hpk, hw, hP, r1, l1, f1, N1, x1, hrb, hoth⟩ :=
+    write_hop hc cfg hcfg L tree s d ty msg j hok ha hact (by omega) hd (by rw [hx]; exact hxd) hj
+      (by rw [hx]; exact htj') hjl hquiet hty hlen hmax
+  rw [hx] at hpk hw hP hrb
+  generalize hcdef : callerFrame x d s.nextId ty msg = c at *
+  have hm1 : maskInt ty 0xFF = ty.toNat := by
+    unfold maskInt
+    have : ty % ((0xFF : Nat) + 1 : Int) = ty := Int.emod_eq_of_lt hty.1 (by omega)
+    rw [this]
+  have hm2 : ty.toNat &&& 0xFF = ty.toNat := by rw [and_ff]; omega
+  have hvx : val x < 4096 := val_lt_4096 hxn
+  have hvd : val d < 4096 := val_lt_4096 hd
+  have hwc : wireCopy c = ⟨⟨val x, val d, s.nextId &&& 0xFFFF, .int ty.toNat, 0⟩, msg⟩ := by
+    rw [← hcdef]
+    unfold wireCopy callerFrame
+    simp only [Header.ty, hm1, hm2]
+    rw [and_fff, and_fff, Nat.mod_eq_of_lt hvx, Nat.mod_eq_of_lt hvd]
+    rfl
+  have T : Transit (wireCopy c) pk ty.toNat x d :=
+    ⟨C05_wireCopy_idem c, by rw [hwc], by omega, by rw [hwc], by rw [hwc], hpk, by rw [hwc]; exact hlen, hd, hxn⟩
+  -- the state the first hop starts its update in
+  have hji : j ≠ s.cur := by
+    intro e; rw [e, hx] at htj'; exact nextHop_ne_self hxd htj'.symm
+  generalize hs1 : (prepared s c).afterRf D = s1 at hw
+  have hpc : (prepared s c).cur = s.cur := rfl
+  have hpl : (prepared s c).nodes.length = s.nodes.length := by simp [prepared]
+  have hsame1 : Same s s1 := by
+    rw [← hs1]
+    refine (Same.prepared s c).trans (Same.afterRf _ D (by rw [hpc, hpl]; exact ha) ?_ (by rw [l1]; rfl) ?_)
+    · rw [r1]; show _ = ((prepared s c).nodeAt (prepared s c).cur).rf.rid
+      exact (((Same.prepared s c).stat s.cur).2.2.2.2).symm
+    · intro r hr
+      have h1 : r ≠ s.ridAt s.cur := by
+        rw [← ((Same.prepared s c).stat s.cur).2.2.2.2]; exact (hr s.cur (by rw [hpl]; exact ha)).symm
+      have h2 : r ≠ s.ridAt j := by
+        rw [← ((Same.prepared s c).stat j).2.2.2.2]; exact (hr j (by rw [hpl]; exact hj)).symm
+      rw [hoth r h1 h2]; rfl
+  have hs1c : s1.cur = s.cur := by rw [← hs1]; rfl
+  have hs1w : s1.w = D.w := by rw [← hs1]; rfl
+  have hs1q : ∀ k, (s1.nodeAt k).queue = (s.nodeAt k).queue := by
+    intro k
+    rw [← hs1, queue_afterRf]
+    show ((NetState.setNode _ _).nodeAt k).queue = _
+    rw [nodeAt_setNode]; split <;> rfl
+  have hs1rf : ∀ k, k ≠ s.cur → (s1.nodeAt k).rf = (s.nodeAt k).rf := by
+    intro k hk
+    rw [← hs1, nodeAt_afterRf_ne _ _ _ (by rw [hpc]; exact hk)]
+    show ((NetState.setNode _ _).nodeAt k).rf = _
+    rw [nodeAt_setNode]; split <;> rfl
+  have hs1rfa : (s1.nodeAt s.cur).rf = D.d := by
+    rw [← hs1, nodeAt_afterRf, if_pos ⟨hpc.symm, by rw [hpc, hpl]; exact ha⟩]
+  have hs1rid : ∀ k, s1.ridAt k = s.ridAt k := fun k => (hsame1.stat k).2.2.2.2
+  have hs1rada : s1.radioAt s.cur = D.radio := by
+    unfold NetState.radioAt NetState.ridAt
+    rw [hs1rfa, hs1w]; rfl
+  have hs1radj : s1.radioAt j = (s.radioAt j).withRx [{ pipe := hopPipe x d, data := pk }]
+      { pid := pid, addr := A, data := pk } := by
+    unfold NetState.radioAt; rw [hs1rid, hs1w, hrb]; rfl
+  have hs1rad : ∀ k, k < s.nodes.length → k ≠ s.cur → k ≠ j → s1.radioAt k = s.radioAt k := by
+    intro k hk hka hkj
+    unfold NetState.radioAt
+    rw [hs1rid, hs1w, hoth _ (hok.inj k s.cur hk ha hka).2 (hok.inj k j hk hj hkj).2]
+  generalize ht : (s1.ret).callAs j = t
+  have hsamet : Same s t := by
+    rw [← ht]; exact (hsame1.trans (Same.ret s1)).trans (Same.callAs _ j)
+  have htc : t.cur = j := by rw [← ht]; rfl
+  have hta : t.active = [j] := by rw [← ht]; rfl
+  have htl : t.nodes.length = s.nodes.length := hsamet.len
+  have htrf : ∀ k, (t.nodeAt k).rf = (s1.nodeAt k).rf := by
+    intro k; rw [← ht, nodeAt_callAs]; exact (ret_facts s1 k).1
+  have htq : ∀ k, (t.nodeAt k).queue = (s.nodeAt k).queue := by
+    intro k; rw [← ht, nodeAt_callAs, (ret_facts s1 k).2.1, hs1q]
+  have htrad : ∀ k, t.radioAt k = s1.radioAt k := by
+    intro k
+    rw [← ht]
+    show (s1.ret).radioAt k = _
+    exact (ret_facts s1 k).2.2
+  have hdisty : dist (nextHopSpec x d) d + 1 = dist x d := dist_nextHop hxd
+  have H : Holding cfg L tree d (wireCopy c) pk (dist x d - 1) t := by
+    refine ⟨?_, by rw [htc, htl]; exact hj, by rw [htc, hta]; exact List.mem_cons_self,
+      by rw [htc, htj']; omega, ?_, ⟨hopPipe x d, ?_, by rw [htc, htrad, hs1radj]; rfl⟩, ?_, ?_⟩
+    · refine hok.of_same hsamet (by rw [← ht]; show s1.w.faults = []; rw [hs1w]; exact f1) ?_
+      intro k hk P' hP' hN'
+      rw [htrf, htrad]
+      by_cases hka : k = s.cur
+      · subst hka
+        rw [hx] at hP'
+        have : P' = P := Except.ok.inj (hP'.symm.trans hP)
+        subst this
+        rw [hs1rfa, hs1rada]; exact N1
+      · rw [hs1rf k hka]
+        by_cases hkj : k = j
+        · subst hkj; rw [hs1radj]; exact hN'.of_eq_cfg rfl
+        · rw [hs1rad k hk hka hkj]; exact hN'
+    · intro k hk1 hkn
+      obtain ⟨j', hj', htj'', hjl'⟩ := hroute (k + 1) (by omega) (by omega)
+      have hj'j : j' ≠ j := by
+        intro e
+        rw [e, htj'] at htj''
+        exact hops_ne_origin (s := nextHopSpec x d) (d := d) (n := k) (by omega) (by omega) htj''.symm
+      have hj'a : j' ≠ s.cur := by
+        intro e
+        rw [e, hx] at htj''
+        exact hops_ne_origin (s := x) (d := d) (n := k + 1) (by omega) (by omega) htj''.symm
+      refine ⟨j', by rw [htl]; exact hj', by rw [htc, htj']; exact htj'', ?_, ?_⟩
+      · rw [hta]; simp only [List.mem_singleton]; exact hj'j
+      · rw [htrad, hs1rad j' hj' hj'a hj'j]; exact hjl'
+    · have := C04_listens cfg hcfg x d hxn hd hxd TX_NORMAL (Or.inl rfl)
+      exact this.2.1
+    · intro k hk hkj
+      rw [htl] at hk; rw [htc] at hkj
+      rw [htrad]
+      by_cases hka : k = s.cur
+      · subst hka; rw [hs1rada]; exact x1
+      · rw [hs1rad k hk hka hkj]; exact hquiet k hk
+    · intro k hk htk
+      rw [htl] at hk
+      rw [htq]; exact hacc k hk htk
+  have hbound : dist x d ≤ 8 := C04_route_bound x d hxn hd
+  obtain ⟨r, s2, e2, Aok, Acur, Aact, Asame, Afifo, Aqueue⟩ :=
+    route_all hc cfg hcfg L tree (wireCopy c) pk ty.toNat x d T hndef (dist x d - 1) t F H (by
+      rw [htl]
+      show _ ≤ 200000
+      have h1 : dist x d - 1 + 1 ≤ 8 := by omega
+      have h2 : (dist x d - 1 + 1) * (s.nodes.length + 12) ≤ 8 * (s.nodes.length + 12) :=
+        Nat.mul_le_mul_right _ h1
+      omega)
+  rw [htl] at Afifo Aqueue
+  refine ⟨s1, j, jd, hj, htj', hjd, htjd, hw, r, s2, ?_, ?_⟩
+  · rw [ht]; exact e2
+  · have hl2 : s2.nodes.length = s.nodes.length := by rw [Asame.len, htl]
+    refine ⟨hl2, ⟨wireCopy c, ?_, ?_⟩, ?_⟩
+    · show (s2.nodeAt jd).queue.frames = (s.nodeAt jd).queue.frames ++ [wireCopy c]
+      rw [Aqueue jd hjd, if_pos htjd, htq]
+    · rw [hwc]; exact ⟨rfl, rfl, rfl⟩
+    · intro k hk
+      show (s2.nodeAt k).queue.frames = (s.nodeAt k).queue.frames
+      by_cases hkl : k < s.nodes.length
+      · rw [Aqueue k hkl, if_neg (fun e => (hok.inj k jd hkl hjd hk).1 (e.trans htjd.symm)), htq]
+        simp
+      · unfold NetState.nodeAt
+        rw [List.getD_eq_getElem?_getD, List.getD_eq_getElem?_getD,
+          List.getElem?_eq_none (by omega), List.getElem?_eq_none (by omega)]
+
+/-- non-vacuity: every hypothesis of `C05_route_partial` other than the driver contracts holds for the
+    concrete chain `0o0 — 0o1 — 0o11` of `NrfProofs/C05Example3.lean`, the grandchild writing `[9, 8, 7]`
+    with type 7 to the master (two hops; running the model gives the same outcome) -/
+example (hc : L3Contracts) : ∃ s1 j1 jd, j1 < 3 ∧ Example.tree3 j1 = [1] ∧ jd < 3 ∧ Example.tree3 jd = [] ∧
+    nexec (apiNetWrite (val []) 7 [9, 8, 7] AUTO_ROUTING) Example.three =
+      (.ok (true, callerFrame [1, 1] [] 6 7 [9, 8, 7]), s1) ∧
+    ∃ r s2, nexec apiUpdate ((s1.ret).callAs j1) = (.ok r, s2) ∧
+      DeliveredOnce Example.three.nodes s2.nodes jd (val [1, 1]) 7 [9, 8, 7] :=
+  C05_route_partial hc {} (by decide) Example.L Example.tree3 Example.three 2 [] 7 [9, 8, 7]
+    Example.three_ok rfl rfl (by decide) (by decide)
+    (by
+      intro i
+      match i with
+      | 0 => decide
+      | 1 => decide
+      | 2 => decide
+      | n + 3 =>
+        show val [5, 5, 5, 5 - n % 4] ≠ 0o4444
+        simp only [val]
+        omega)
+    (by decide) (by decide)
+    (by
+      intro k hk1 hk2
+      have hd : dist (Example.tree3 2) [] = 2 := by decide
+      rw [hd] at hk2
+      have : k = 1 ∨ k = 2 := by omega
+      rcases this with rfl | rfl
+      · exact ⟨1, by decide, by decide, by decide⟩
+      · exact ⟨0, by decide, by decide, by decide⟩)
+    (by
+      intro i hi
+      have hi' : i < 3 := hi
+      have : i = 0 ∨ i = 1 ∨ i = 2 := by omega
+      rcases this with rfl | rfl | rfl <;> decide)
+    (by decide) (by decide) (by decide)
+    (by
+      intro j hj htj
+      have hj' : j < 3 := hj
+      have : j = 0 ∨ j = 1 ∨ j = 2 := by omega
+      rcases this with rfl | rfl | rfl
+      · exact ⟨by decide, by intro g hg; cases hg⟩
+      · exact absurd htj (by decide)
+      · exact absurd htj (by decide))
 
 end Nrf.Props.C05
